@@ -6,7 +6,9 @@ For each member it finds the declaration (regex over the owning class body), cla
 (`std::atomic<...>` -> atomic) and otherwise scans every access site of the member for an enclosing
 `std::lock_guard` / `std::unique_lock` / `std::scoped_lock` declaration (or Console.cpp's `USE_DOH` macro, which
 expands to one) that is still in scope at the site:
-    all sites guarded -> mutexGuarded;  any site outside a lock scope -> plain (the sites are listed).
+    all sites guarded -> mutexGuarded;  any site outside a lock scope -> plain (the sites are listed);
+    a function that touches the member under two different lock scopes (read in one, write in the next) -> plain.
+For NearestNeighborsGNAT every `mutable` data member (nested Node included) is extracted, not a fixed list.
 Sites inside a constructor/destructor of the owning class (object not yet / no longer shared) and inside member
 initialiser lists are exempt.  Manual `m.lock(); ... m.unlock();` pairs are NOT accepted as guards (none of the
 surface members uses them); anything the scanner cannot place counts as unguarded, i.e. errs towards an alarm.
@@ -160,16 +162,12 @@ def find_decl(src, body, name):
 
 
 def mutable_members(src, body):
+    """names of all `mutable` data members declared anywhere inside the class body (nested classes included;
+    a lambda's `mutable {` is not a declaration and does not match)"""
     o, c = body
-    depth = 0
     names = []
-    for m in re.finditer(r"[{};]|\bmutable\b[^;{}()]*?\b(\w+)\s*(?:\{[^}]*\})?\s*;", src[o + 1:c]):
-        t = m.group(0)
-        if t == "{":
-            depth += 1
-        elif t == "}":
-            depth -= 1
-        elif m.group(1) and depth == 0:
+    for m in re.finditer(r"\bmutable\b[^;{}()]*?\b(\w+)\s*(?:\{[^{}]*\})?\s*(?:=[^;{}]*)?;", src[o + 1:c]):
+        if m.group(1) not in names:
             names.append(m.group(1))
     return names
 
@@ -206,16 +204,21 @@ def scan_sites(path, name, cls, decl_off=None, region=None, via=None):
         exempt = False
         guarded = False
         in_function = False
+        guard_off = None
+        fn_off = None
         for (o, c, h) in enclosing:
             if is_ctor_dtor_header(h, cls):
                 exempt = True
             if re.search(r"\)\s*(?:const)?\s*(?:noexcept)?\s*(?:override)?\s*(?:->[^{]*)?$", h.strip()) or "[" in h:
                 in_function = True
+                if fn_off is None and "[" not in h.split("(")[0]:
+                    fn_off = o      # the outermost function body around the site
             # a lock declared directly in this block (not in a nested, already closed one) before the site
             for lm in LOCK_DECL.finditer(src, o, off):
                 inner = [b for b in bl if o < b[0] and b[1] < off and b[0] < lm.start() < b[1]]
                 if not inner:
                     guarded = True
+                    guard_off = lm.start()
         if not enclosing or not in_function:
             # member initialiser list `Cls(...) : a_(x), name(...)` sits before the ctor body's `{`
             pre = src[max(0, off - 400):off]
@@ -229,7 +232,7 @@ def scan_sites(path, name, cls, decl_off=None, region=None, via=None):
                     continue
         ls = raw.rfind("\n", 0, off) + 1
         le = raw.find("\n", off)
-        sites.append({"line": line_of(src, off), "guarded": guarded, "exempt": exempt,
+        sites.append({"line": line_of(src, off), "guarded": guarded, "exempt": exempt, "guard": guard_off, "fn": fn_off,
                       "text": raw[ls:le].strip()[:100]})
     return sites
 
@@ -270,6 +273,12 @@ def extract():
         for name in names:
             d = find_decl(src, body, name)
             if d is None:
+                # declared in a nested class of the body
+                m = re.search(r"(?:^|[;{}])\s*((?:mutable\s+)?[\w:<>,\s\*&]+?)\b" + re.escape(name) +
+                              r"\s*(?:\{[^{}]*\})?\s*(?:=[^;{}]*)?;", src[body[0] + 1:body[1]])
+                if m and "(" not in m.group(1):
+                    d = (re.sub(r"\s+", " ", m.group(1)).strip(), body[0] + 1 + m.start(1))
+            if d is None:
                 raise SystemExit("shared_access: declaration of %s::%s not found in %s (renamed? update SURFACE)" % (cls, name, rel))
             typ, decl_off = d
             sites = []
@@ -285,6 +294,18 @@ def extract():
                 ung = []
             else:
                 ung = [s for s in live if not s["guarded"]]
+                # one function touching the member under two different lock scopes is a read-modify-write split over
+                # two critical sections: exactly the model's two-step `plain` access, however well each half is guarded
+                per_fn = {}
+                for s in live:
+                    if s["guarded"] and s["fn"] is not None:
+                        per_fn.setdefault((s["file"], s["fn"]), {}).setdefault(s["guard"], []).append(s)
+                for key, guards in per_fn.items():
+                    if len(guards) > 1:
+                        for g in sorted(guards)[1:]:
+                            first = dict(guards[g][0])
+                            first["text"] = "[second lock scope in one function] " + first["text"]
+                            ung.append(first)
                 kind = "mutexGuarded" if live and not ung else "plain"
             table.append({
                 "name": "%s::%s" % (cls, name), "member": name, "cls": cls, "file": os.path.relpath(path, REPO),
@@ -350,6 +371,12 @@ def render(table):
     L.append("    ∃ l : List Sol, l.Perm xss.flatten ∧ (∀ xs ∈ xss, xs.Sublist l) ∧")
     L.append("      (exec SStep.apply (addThreads m.kind xss) SStore.init is).sols = addAll l [] :=")
     L.append("  OmplModel.Props.C19.guarded_linearizable m.kind (surface_no_plain m hm) xss is hc")
+    L.append("")
+    L.append("theorem surface_add_clear_linearizable (m : Member) (hm : m ∈ surface) (opss : List (List QOp)) (is : List Nat)")
+    L.append("    (hc : Complete (qThreads m.kind opss) is) :")
+    L.append("    ∃ l : List QOp, l.Perm opss.flatten ∧ (∀ ops ∈ opss, ops.Sublist l) ∧")
+    L.append("      (exec QStep.apply (qThreads m.kind opss) SStore.init is).sols = seqRun l [] :=")
+    L.append("  OmplModel.Props.C19.guarded_add_clear_linearizable m.kind (surface_no_plain m hm) opss is hc")
     L.append("")
     L.append("theorem surface_seeds_distinct (m : Member) (hm : m ∈ surface) (N k : Nat) (is : List Nat) :")
     L.append("    ((exec GStep.apply (seedThreads m.kind N k) GStore.init is).handed.map Prod.snd).Nodup :=")
